@@ -6,7 +6,8 @@ from .. import jubjub as J
 
 THEOREMS = ["C12_law_complete", "C12_law_closed", "C12_law_inverse", "C12_add_emits", "C12_add_rows_iff", "C12_add_unique",
             "C12_add_satisfiable", "C12_neg", "C12_neg_emits", "C12_select_identity", "C12_select_identity_bit_boolean",
-            "C12_select_point", "C12_mul_point_emits", "C12_mul_point_sound", "C12_d_euler_criterion", "C12_sub_emits", "C12_sub_sound", "C12_select_identity_emits", "C12_add_in_system", "C12_mul_point_in_system"]
+            "C12_select_point", "C12_mul_point_emits", "C12_mul_point_sound", "C12_d_euler_criterion", "C12_sub_emits", "C12_sub_sound", "C12_select_identity_emits", "C12_add_in_system", "C12_mul_point_in_system",
+            "C12_law_assoc", "C12_scalar_multiple_hom", "C12_ladder_is_scalar_multiple", "C12_mul_point_scalar_multiple"]
 FIRST = 6
 
 def e(p, z=1): return " ".join(hx(v) for v in J.ext(p, z))
@@ -184,9 +185,9 @@ def run(ck):
                          {"failing_input_found": False, "correspondence": "L1 widget formula tie (ecc/curve_addition)", "tuple": line, "impl": a, "model": b, "theorems_no_longer_tied": THEOREMS})
     return ck.finish(level="proof",
         rule="point pairs {identity, P and -P, P and P, P and 2P, two generators, random} x {add, sub, neg, select_identity with bits 0/1/2/r-1, select_point}; scalars {0,1,2,r_j-1,r_j,2^252-1,2^251,random,(>252 bits)} x {random point, identity, generator} for mul_point; every real snapshot compared with the Gallina model (rows, witness values incl. native sums, returned wires); returned points compared with independent affine arithmetic; honest / forged helper wire / forged output / solved-for / flipped-bit assignments decided on the real layout by the proved evaluator; L1 tie of the curve-addition widget",
-        assumptions=["PrimeR (prime r)", "NonSquareD (d is not a square in Fr): hypothesis of the theorems; Euler criterion value d^((r-1)/2) = -1 recomputed by the check", "associativity of the group law (double-and-add = scalar multiple) is not mechanised: ed_mul is DEFINED as the MSB-first double-and-add of dusk-jubjub and compared with native results",
+        assumptions=["PrimeR (prime r): class argument of the statements, proved closed in Props/Hypotheses.v", "NonSquareD (d is not a square in Fr): class argument of the theorems, proved in Props/Hypotheses.v (HYP_nonsquare_d)", "associativity is proved (C12_law_assoc) with cofactors computed outside Coq and checked by ring; ed_mul (the MSB-first double-and-add of dusk-jubjub) is proved equal to the integer multiple and also compared with native results",
                      "always-satisfiable (completeness) of the chained components is decided by evaluation of honest runs, proved only per addition block"],
-        checker_cmd=proofgate.CHECKER_CMD, trusted_base=proofgate.TRUSTED + ["Hypothesis NonSquareD (Jubjub d is a quadratic non-residue) in the statements of C12-C14"])
+        checker_cmd=proofgate.CHECKER_CMD, trusted_base=proofgate.TRUSTED)
 
 def rederive_points(snap, wits):
     """re-derive, in row order, the (x1*y2, x3, y3) witnesses of every curve-addition block and the
